@@ -25,13 +25,15 @@ def anova_decomposition(t, marginals=None):
         marginals = [None] * t.dim()
     for n in range(t.dim()):
         if marginals[n] is None:
-            marginals[n] = torch.ones([t.shape[n]]) / float(t.shape[n])
+            marginals[n] = torch.ones(
+                [t.shape[n]], dtype=t.cores[n].dtype, device=t.cores[n].device
+            ) / float(t.shape[n])
     cores = [c.clone() for c in t.cores]
     Us = []
     idxs = []
     for n in range(t.dim()):
         if t.Us[n] is None:
-            U = torch.eye(t.shape[n])
+            U = torch.eye(t.shape[n], dtype=t.cores[n].dtype, device=t.cores[n].device)
         else:
             U = t.Us[n]
 
@@ -117,7 +119,13 @@ def sobol(t, mask, marginals=None, normalize=True):
     a -= (
         tn.Tensor(
             [
-                torch.cat((torch.ones(1, 1, 1), torch.zeros(1, sh - 1, 1)), dim=1)
+                torch.cat(
+                    (
+                        torch.ones(1, 1, 1, dtype=a.cores[0].dtype),
+                        torch.zeros(1, sh - 1, 1, dtype=a.cores[0].dtype),
+                    ),
+                    dim=1,
+                )
                 for sh in a.shape
             ]
         )
@@ -126,7 +134,7 @@ def sobol(t, mask, marginals=None, normalize=True):
     am = a.clone()
     for n in range(t.dim()):
         if marginals[n] is None:
-            m = torch.ones([t.shape[n]])
+            m = torch.ones([t.shape[n]], dtype=t.cores[n].dtype)
         else:
             m = marginals[n]
         m = m / torch.sum(m)  # Make sure each marginal sums to 1 (without touching the caller's array)
@@ -139,7 +147,11 @@ def sobol(t, mask, marginals=None, normalize=True):
             am.Us[n][1:, :] *= m[:, None]
     am_masked = tn.mask(am, mask)
     if am_masked.cores[-1].dim() == 3 and am_masked.cores[-1].shape[-1] > 1:
-        am_masked.cores.append(torch.eye(am_masked.cores[-1].shape[-1])[:, :, None])
+        am_masked.cores.append(
+            torch.eye(
+                am_masked.cores[-1].shape[-1], dtype=am_masked.cores[-1].dtype
+            )[:, :, None]
+        )
         am_masked.Us.append(None)
 
     if normalize:
